@@ -52,3 +52,6 @@ IO/Ranges.vos IO/Ranges.vok IO/Ranges.required_vos: IO/Ranges.v Base/QSum.vos
 IO/Lex.vo IO/Lex.glob IO/Lex.v.beautified IO/Lex.required_vo: IO/Lex.v 
 IO/Lex.vio: IO/Lex.v 
 IO/Lex.vos IO/Lex.vok IO/Lex.required_vos: IO/Lex.v 
+IO/Bas.vo IO/Bas.glob IO/Bas.v.beautified IO/Bas.required_vo: IO/Bas.v 
+IO/Bas.vio: IO/Bas.v 
+IO/Bas.vos IO/Bas.vok IO/Bas.required_vos: IO/Bas.v 
